@@ -39,9 +39,9 @@ CHECKS = {
     "C13": ("proof", "contract-based deductive verification in QF_BV + linear integer arithmetic of the real pack / unpack / __getitem__ / sliding_window",
             "Every clause of the property is a discharged obligation generated from the real functions: pack (digit j of register q = element qk+j, zero beyond n, input untouched), unpack, integer and list indexing, sliding_window for every window size, for every b in {1,2,4,8,16,32} and every in-register offset (the property's own finite domain), with length, register index, positions and window size symbolic. A bounded cross-check runs in addition.", "0, 20, 11/C13"),
     "C14": ("other", "contracts (encoder canonical form, decoder XOR scan with invariant, constructor) + bounded numpy stand-in",
-            "Proved: from_array gives canonical boundaries with adjacent runs different and run values taken at run starts; to_array decodes bit for bit (scan invariant); constructor invariants; slice windows; the canonicalisation helpers remove_empty_intervals and join_runs (np.delete contract, chain induction); concatenate. The dtype matrix is bounded.", "0, 20, 11/C14"),
+            "Proved: from_array gives canonical boundaries with adjacent runs different and run values taken at run starts; to_array decodes bit for bit (scan invariant); constructor invariants; slice windows; the canonicalisation helpers remove_empty_intervals and join_runs (np.delete contract, chain induction); concatenate; and the round trip to_array(from_array(x)) == x as a lemma over the shared contract formulas of the two functions (identical for bit patterns; for numpy's == up to the exchange of ==-equal neighbours). The dtype matrix is bounded.", "0, 20, 11/C14"),
     "C15": ("other", "contracts (slice window = CPython's clamped window, position lookup, sub-range extraction) + bounded numpy stand-in",
-            "Proved: _get_slice hands exactly CPython's clamped window to _start_to_end for all 8 None/int kinds; _start_to_end (scalar form) returns a canonical sub-array with the dense content; _step_subset for every non-zero step of symbolic size (factored floor division, proved callee contracts of remove_empty_intervals / join_runs); _get_position; __getitem__ / _getitem_bool dispatch for every index kind. the vector form of _start_to_end (the windows behind run-length masks and rla[starts:stops]) and RunLengthRaggedArray.ravel, with the ragged operands as contract-level stand-ins (SpecRagged, audited against the real RaggedArray). The end-to-end composition is bounded.", "0, 20, 11/C15"),
+            "Proved: _get_slice hands exactly CPython's clamped window to _start_to_end for all 8 None/int kinds; _start_to_end (scalar form) returns a canonical sub-array with the dense content; _step_subset for every non-zero step of symbolic size (factored floor division, proved callee contracts of remove_empty_intervals / join_runs); _get_position; __getitem__ / _getitem_bool dispatch for every index kind. the vector form of _start_to_end (the windows behind run-length masks and rla[starts:stops]) and RunLengthRaggedArray.ravel, with the ragged operands as contract-level stand-ins (SpecRagged, audited against the real RaggedArray); and the composition for slices as a lemma over the shared contract formulas of _get_slice / _start_to_end / _step_subset: rla[a:b:s] has len(range(n)[a:b:s]) positions and position q holds the value at first + q*step, for every step. The composition for masks / windows is bounded.", "0, 20, 11/C15"),
     "C16": ("other", "contracts (operand order, boundaries kept, any/all/max) + bounded numpy stand-in",
             "Proved: unary / scalar ufuncs keep boundaries and apply U in operand order, operands untouched; the binary merge _apply_binary_func for two arrays with unrelated boundaries (every position gets U(first, other) in operand order; argsort / searchsorted contracts, partition-point induction, proved callee contracts); any/all/max equal the dense ones; sum of integer arrays equals the sum of the decoded array (two inductions, products length * value handled by the solver's nonlinear arithmetic); concatenate. mean / histogram and float sums are bounded.", "0, 20, 11/C16"),
     "C17": ("other", "dispatch contracts (operand order, lock-step row selection) + bounded numpy stand-in",
